@@ -53,7 +53,11 @@ def plateau(x):
 
 
 SCALE = [1.0]
-OBJECTIVES = {"sphere": sphere, "funnels": funnels, "plateau": plateau}
+def offset(x):
+    return 1000.0 + 1e-4 * float(np.sum(np.asarray(x) ** 2))
+
+
+OBJECTIVES = {"sphere": sphere, "funnels": funnels, "plateau": plateau, "offset": offset}
 BOXES = {"sym2": np.array([(-20.0, 20.0)] * 2), "dec3": np.array([(-0.1, 0.2)] * 3), "asym2": np.array([(1e-3, 10.0), (-3.0, 0.5)])}
 
 
@@ -124,9 +128,9 @@ def scenarios(seed, tier):
         if i < len(ROOTS):            # make sure every root engine appears
             kinds[0] = ROOTS[i]
         out.append(dict(
-            id=i, kinds=kinds, objective=rng.choice(["sphere", "funnels", "funnels", "plateau"]), box=rng.choice(list(BOXES)),
+            id=i, kinds=kinds, objective=rng.choice(["sphere", "funnels", "funnels", "plateau", "offset"]), box=rng.choice(list(BOXES)),
             maximize=rng.random() < 0.4, generations=rng.choice([1, 2, 3]), leaf_generations=rng.choice([2, 4]),
-            sprout=rng.choice(["simple", "nbc", "nbc"]), level_limit=rng.choice([1, 2, 3]),
+            sprout=rng.choice(["simple", "nbc", "nbc", "nbc_multi"]), level_limit=rng.choice([1, 2, 3]),
             gsc=rng.choice(["metaepoch", "metaepoch", "evals", "evals_w", "allstopped", "rootstopped", "nonroot"]),
             gsc_n=rng.choice([3, 5, 7]), lsc=rng.choice(["dontstop", "metaepoch", "metaepoch", "children", "steady"]),
             hibernation=rng.random() < 0.4, seed=rng.randrange(10 ** 6)))
@@ -152,8 +156,17 @@ def build(sc, seed_override=None):
             lsc = DontStop()
         levels.append(make_level(kind, fp, lsc, rng, sc["leaf_generations"] if leaf else sc["generations"]))
     far = float(np.min(box[:, 1] - box[:, 0])) / 20
-    sprout = get_simple_sprout(far, level_limit=sc["level_limit"]) if sc["sprout"] == "simple" else \
-        get_NBC_sprout(level_limit=sc["level_limit"], gen_dist_factor=1.5, fil_dist_factor=1.0, trunc_factor=0.8)
+    if sc["sprout"] == "simple":
+        sprout = get_simple_sprout(far, level_limit=sc["level_limit"])
+    elif sc["sprout"] == "nbc_multi":
+        # a user-composed mechanism: several sprouts per parent and round, a larger level limit
+        from pyhms.sprout.sprout_filters import DemeLimit, LevelLimit, NBC_FarEnough, SkipSameSprout
+        from pyhms.sprout.sprout_generators import NBC_Generator
+        from pyhms.sprout.sprout_mechanisms import SproutMechanism
+        sc["level_limit"] = sc["level_limit"] + 2
+        sprout = SproutMechanism(NBC_Generator(1.2, 1.0), [NBC_FarEnough(0.5, 2), DemeLimit(3)], [LevelLimit(sc["level_limit"]), SkipSameSprout()])
+    else:
+        sprout = get_NBC_sprout(level_limit=sc["level_limit"], gen_dist_factor=1.5, fil_dist_factor=1.0, trunc_factor=0.8)
     n = sc["gsc_n"]
     gsc = {"metaepoch": lambda: MetaepochLimit(n), "evals": lambda: SingularProblemEvalLimitReached(60 * n),
            "evals_w": lambda: FitnessEvalLimitReached(60 * n, weights=[1.0] * len(levels)),
